@@ -271,6 +271,7 @@ func (in *Interp) appendBuiltin(st *State, a, b Value, t types.Type) []Alt {
 func (in *Interp) callSpecial(st *State, fv *FuncV, args []Value) []Alt {
 	switch fv.Special {
 	case "pred":
+		st.Calls["special:pred"]++
 		return one(smt.UF("pred."+fv.Tag, smt.Bool, termOf(args[0])))
 	case "urlpred":
 		u := in.load(st, args[0].(Ptr)).(*StructV)
